@@ -361,3 +361,37 @@ func constInt64(c *types.Const) (int64, bool) {
 }
 
 type pkgT = packages.Package
+
+// litThroughHelper resolves e to a composite literal: e itself, or — when e is a call
+// x.m() of a zero-argument repo method on the value `recv` whose body is a single
+// `return <composite literal>` — that literal, together with the types.Info and the
+// receiver variable in whose terms it is written.
+func litThroughHelper(p *Prog, info *types.Info, e ast.Expr, recv types.Object) (*ast.CompositeLit, *types.Info, types.Object) {
+	e = unparen(e)
+	if lit, ok := e.(*ast.CompositeLit); ok {
+		return lit, info, recv
+	}
+	call, ok := e.(*ast.CallExpr)
+	if !ok || len(call.Args) != 0 {
+		return nil, nil, nil
+	}
+	sel, ok := unparen(call.Fun).(*ast.SelectorExpr)
+	if !ok || objOf(info, sel.X) != recv || recv == nil {
+		return nil, nil, nil
+	}
+	f := callee(info, call)
+	fd := p.Decl(f)
+	if fd == nil || len(fd.Body.List) != 1 {
+		return nil, nil, nil
+	}
+	r, ok := fd.Body.List[0].(*ast.ReturnStmt)
+	if !ok || len(r.Results) != 1 {
+		return nil, nil, nil
+	}
+	lit, ok := unparen(r.Results[0]).(*ast.CompositeLit)
+	if !ok {
+		return nil, nil, nil
+	}
+	finfo := p.InfoOf(f)
+	return lit, finfo, receiverVar(finfo, fd)
+}
